@@ -193,6 +193,12 @@ def run(ctx: Ctx):
         "a bare CR is not a line break; lone surrogates are outside the domain",
         "folding/unfolding of the serialised component is exact (that is C06's obligation)",
     ]
+    # ------------------------------------------------------------- SUITE: calls observed in the repository's own tests
+    from vf import suite
+    suite.step(ctx, "text", ["P:C07"])
+    # ------------------------------------------------------------- FRESH: history independence of returned objects (spec/Fresh.tla)
+    from vf import fresh
+    fresh.step(ctx, "C07")
     return ctx.finish(rule=(
         "strings: every string over the 14-symbol critical alphabet up to length "
         f"{maxlen} (plus a BOM/non-ASCII alphabet), lists of <=2 items, enumerated by TLC; long random "
